@@ -390,6 +390,25 @@ def run(ctx, prog):
         ctx._add(o)
     d4(ctx, prog)
     d5(ctx, prog)
+    ctx.rule('C09-D7', 'the trace count of an accumulator is incremented after the kernel call: a batch the kernel refuses (implicit exception) is not counted')
+    upd = prog.resolve_method(u.cls, u.update)
+    for kind_, node_, text_ in kernelrules.count_after_last_call(upd, u.count):
+        k7 = f'{upd.key}::count after the kernel'
+        if kind_ == 'ok':
+            ctx.ok('C09-D7', k7, text_, upd.where(node_))
+        elif kind_ == 'bad':
+            ctx.fail('C09-D7', k7, text_, upd.where(node_))
+        else:
+            ctx.undecided('C09-D7', k7, text_, upd.where())
+    ctx.rule('C09-D8', 'every batch reaches the kernel as given or cast to the working precision: no conversion to a dtype remembered from an earlier batch / run')
+    v8, t8, n8 = kernelrules.batch_passthrough(prog, upd, k, upd.params[1])
+    k8 = f'{upd.key}::samples handed to the kernel'
+    if v8 == 'ok':
+        ctx.ok('C09-D8', k8, t8, upd.where(n8))
+    elif v8 == 'bad':
+        ctx.fail('C09-D8', k8, t8 + ': a later trace set with a wider dtype (int16 after uint8, float after integer) is wrapped / truncated, so repeated runs do not accumulate as if concatenated', upd.where(n8))
+    else:
+        ctx.undecided('C09-D8', k8, f'how the batch reaches the kernel is not understood: {t8}', upd.where(n8))
     ctx.rule('C09-D6', 'dimensional analysis: sum u n, sum_squared u^2 n, count n (from the kernel and update); mean u, var u^2 from homogeneous expressions; t statistic u^0 n^(1/2); each variance divided by the count of its own accumulator')
     ctx.floor('dimension obligations (t-test)', d6(ctx, prog, k), 4)
     ctx.floor('prange loops in the t-test kernel', n, 1)
